@@ -109,9 +109,11 @@ def operands(tier, seed):
     ops = [(c, r) for c in base for r in REL_NAMES]
     rng = common.rng_for(PROP, seed, "long")
     extra = []
-    for _ in range(60 if tier == "quick" else 400):
+    inverted = [(2, 0), (3, 1), (1, 0), (3, 0), (3, 2), (2, 1)]
+    for k in range(60 if tier == "quick" else 400):
         ln = rng.randint(3, 5)
-        extra.append((tuple(rng.choice(u) for _ in range(ln)), rng.choice(REL_NAMES)))
+        pool = u + inverted if k % 3 == 0 else u       # spans with start > end are spans too (no span is "in" them under some relations)
+        extra.append((tuple(rng.choice(pool) for _ in range(ln)), rng.choice(REL_NAMES)))
     return ops, extra, u
 
 
@@ -292,6 +294,35 @@ def run_shard(spec):
                 do(a, b, False)
                 do(b, a, False)
             idx += 1
+    # one long-lived operand compared with hundreds of short-lived ones (temporaries are freed at once, their addresses are
+    # re-used by the next ones): an answer must never depend on the identity of an operand that no longer exists; the same
+    # through copies of the long-lived operand (copy.deepcopy / pickle round trip)
+    import copy
+    import pickle
+    for li in range(3):
+        la = rng.choice(extra) if li else rng.choice([o for o in ops if len(o[0]) == 2])
+        A = make_real(la[0], la[1], "pairs")
+        variants = [("the long-lived set", A), ("its deepcopy", copy.deepcopy(A)), ("its pickle round trip", pickle.loads(pickle.dumps(A)))]
+        ka = construct_ref(la[0], la[1])
+        ina = lambda x: contains_ref(ka, la[1], x)
+        for bi in range(120):
+            b = ops[(spec["shard"] * 131 + li * 977 + bi * 37) % len(ops)]
+            kb = construct_ref(b[0], b[1])
+            inb = lambda x: contains_ref(kb, b[1], x)
+            le_ab, le_ba = all(inb(x) for x in ka), all(ina(x) for x in kb)
+            for vname, AV in variants[:1 + (bi % 3 == 0) * 2]:
+                B = make_real(b[0], b[1], "pairs")
+                got = (AV <= B, AV >= B, AV == B, AV.isdisjoint(B), AV < B)
+                want = (le_ab, le_ba, le_ab and le_ba, all(not ina(x) for x in kb), le_ab and not (le_ab and le_ba))
+                del B
+                res.evaluations += 5
+                if got != want:
+                    per_mech["comparison"] = per_mech.get("comparison", 0) + 1
+                    if per_mech["comparison"] <= 10:
+                        res.violation("comparison", f"{vname} SpanSet({ka},{la[1]}) compared with the {bi + 1}-th temporary SpanSet({kb},{b[1]}): "
+                                      f"(<=, >=, ==, isdisjoint, <) -> {got}, definitions give {want}",
+                                      {"case": {"a": [list(la[0]), la[1]], "b": [list(b[0]), b[1]], "form": "pairs", "tier": spec["tier"]}})
+        res.count("long_lived_operands")
     res.count("repo_line_events", instr.S.total)
     return res.as_dict()
 
